@@ -33,6 +33,10 @@ pub enum Step {
     PipelineCommunicate(u8),
     /// Pipeline::stream_stdin / stream_stdout
     PipelineStream(u8, bool),
+    /// a pipe made with the crate's make_pipe(); its write end becomes a child's
+    /// stdout through Redirection::RcFile (true) / File (false) while the caller
+    /// keeps its own handle open
+    SpawnToUserPipe(bool),
 }
 
 #[derive(Clone, Debug, Serialize, Deserialize)]
@@ -40,10 +44,17 @@ pub struct LeakCase {
     pub steps: Vec<Step>,
 }
 
+#[derive(Clone, Copy, Debug, PartialEq, Serialize, Deserialize)]
+pub enum Work {
+    Spawn(SK, SK, SK),
+    /// Pipeline::popen of n stages (stdin and stdout not piped)
+    Pipeline(u8),
+}
+
 #[derive(Clone, Debug, Serialize, Deserialize)]
 pub struct ConcCase {
-    /// per thread: the configurations it spawns one after the other
-    pub threads: Vec<Vec<(SK, SK, SK)>>,
+    /// per thread: what it starts, one after the other
+    pub threads: Vec<Vec<Work>>,
     /// schedule: which thread runs until its next system call
     pub schedule: Vec<u8>,
 }
@@ -335,6 +346,37 @@ pub fn check_history(ctx: &Ctx, case: &LeakCase, rep: &mut CaseReport) -> CaseRe
                     }
                 }
             }
+            Step::SpawnToUserPipe(rc) => {
+                context = "user-pipe";
+                let (r, wr) = subprocess::make_pipe().unwrap();
+                let wr_ino = fd_ident(wr.as_raw_fd()).1;
+                let cfg = if *rc {
+                    let rcw = std::rc::Rc::new(wr);
+                    let c = PopenConfig { stdout: Redirection::RcFile(std::rc::Rc::clone(&rcw)), ..Default::default() };
+                    HELD_RC.with(|h| h.borrow_mut().push(rcw));
+                    c
+                } else {
+                    let c = PopenConfig { stdout: Redirection::File(wr.try_clone().unwrap()), ..Default::default() };
+                    HELD.with(|h| h.borrow_mut().push(wr));
+                    c
+                };
+                HELD.with(|h| h.borrow_mut().push(r));
+                match Popen::create(&child_argv(SK::None), cfg) {
+                    Ok(p) => {
+                        let snap = ip::pipes_snapshot();
+                        // pipes of this step: the user pipe, then the status pipe of create
+                        if let Some(st) = snap.get(snap_before + 1) {
+                            w.status.insert(st.ino);
+                        }
+                        let _ = wr_ino;
+                        live.push(p);
+                    }
+                    Err(e) => {
+                        result = fail("spawn-error", context, e.to_string());
+                        break 'steps;
+                    }
+                }
+            }
             Step::PipelineStream(n, input) => {
                 context = "pipeline-stream";
                 let n = (*n).clamp(2, 6) as usize;
@@ -421,6 +463,7 @@ pub fn check_history(ctx: &Ctx, case: &LeakCase, rep: &mut CaseReport) -> CaseRe
     }
     drop(comms);
     HELD.with(|h| h.borrow_mut().clear());
+    HELD_RC.with(|h| h.borrow_mut().clear());
     drop(adapters_w);
     drop(adapters_r);
     reap_all();
@@ -434,6 +477,7 @@ pub fn check_history(ctx: &Ctx, case: &LeakCase, rep: &mut CaseReport) -> CaseRe
 
 thread_local! {
     static HELD: std::cell::RefCell<Vec<std::fs::File>> = const { std::cell::RefCell::new(Vec::new()) };
+    static HELD_RC: std::cell::RefCell<Vec<std::rc::Rc<std::fs::File>>> = const { std::cell::RefCell::new(Vec::new()) };
 }
 
 // ---------------------------------------------------------------------------
@@ -503,6 +547,7 @@ struct ThreadResult {
     popens: Vec<Popen>,
     status_inodes: Vec<u64>,
     error: Option<String>,
+    held: Vec<std::fs::File>,
 }
 
 pub fn check_concurrent(ctx: &Ctx, case: &ConcCase, rep: &mut CaseReport) -> CaseResult {
@@ -539,31 +584,62 @@ pub fn check_concurrent(ctx: &Ctx, case: &ConcCase, rep: &mut CaseReport) -> Cas
                 std::hint::spin_loop();
             }
             wait_turn(t);
-            let mut res = ThreadResult { children: vec![], popens: vec![], status_inodes: vec![], error: None };
-            for (i, o, e) in cfgs {
-                let (o, e) = if o == SK::Merge && e == SK::Merge { (SK::Pipe, SK::Merge) } else { (o, e) };
-                let i = if i == SK::Merge { SK::None } else { i };
+            let mut res = ThreadResult { children: vec![], popens: vec![], status_inodes: vec![], error: None, held: vec![] };
+            for wk in cfgs {
                 let tid = unsafe { libc::syscall(libc::SYS_gettid) as i32 };
                 let before: Vec<u64> = ip::pipes_snapshot().iter().filter(|p| p.tid == tid).map(|p| p.ino).collect();
-                match Popen::create(&child_argv(i), PopenConfig { stdin: red(i), stdout: red(o), stderr: red(e), ..Default::default() }) {
-                    Ok(p) => {
-                        let mine: Vec<u64> = ip::pipes_snapshot().iter().filter(|p| p.tid == tid).map(|p| p.ino).collect();
-                        if let Some(first) = mine.get(before.len()) {
-                            res.status_inodes.push(*first);
+                match wk {
+                    Work::Spawn(i, o, e) => {
+                        let (o, e) = if o == SK::Merge && e == SK::Merge { (SK::Pipe, SK::Merge) } else { (o, e) };
+                        let i = if i == SK::Merge { SK::None } else { i };
+                        match Popen::create(&child_argv(i), PopenConfig { stdin: red(i), stdout: red(o), stderr: red(e), ..Default::default() }) {
+                            Ok(p) => {
+                                let mine: Vec<u64> = ip::pipes_snapshot().iter().filter(|p| p.tid == tid).map(|p| p.ino).collect();
+                                if let Some(first) = mine.get(before.len()) {
+                                    res.status_inodes.push(*first);
+                                }
+                                let mut inos: Vec<(u64, bool)> = vec![];
+                                if let Some(f) = &p.stdin {
+                                    inos.push((fd_ident(f.as_raw_fd()).1, true));
+                                }
+                                for f in [&p.stdout, &p.stderr].into_iter().flatten() {
+                                    inos.push((fd_ident(f.as_raw_fd()).1, false));
+                                }
+                                res.children.push((p.pid().unwrap_or(0), inos));
+                                res.popens.push(p);
+                            }
+                            Err(e) => {
+                                res.error = Some(e.to_string());
+                                break;
+                            }
                         }
-                        let mut inos: Vec<(u64, bool)> = vec![];
-                        if let Some(f) = &p.stdin {
-                            inos.push((fd_ident(f.as_raw_fd()).1, true));
-                        }
-                        for f in [&p.stdout, &p.stderr].into_iter().flatten() {
-                            inos.push((fd_ident(f.as_raw_fd()).1, false));
-                        }
-                        res.children.push((p.pid().unwrap_or(0), inos));
-                        res.popens.push(p);
                     }
-                    Err(e) => {
-                        res.error = Some(e.to_string());
-                        break;
+                    Work::Pipeline(n) => {
+                        let n = n.clamp(2, 4) as usize;
+                        let (r, wr) = harness_pipe();
+                        let cmds: Vec<Exec> = (0..n).map(|_| Exec::cmd(vchild_path()).arg("holdread").arg("0")).collect();
+                        match Pipeline::from_exec_iter(cmds).stdin(r).stdout(subprocess::NullFile).popen() {
+                            Ok(v) => {
+                                let mine: Vec<u64> = ip::pipes_snapshot().iter().filter(|p| p.tid == tid).map(|p| p.ino).collect();
+                                // pipes of one stage: status, then (unless last) its stdout pipe
+                                let mut idx = before.len();
+                                for k in 0..n {
+                                    if let Some(x) = mine.get(idx) {
+                                        res.status_inodes.push(*x);
+                                    }
+                                    idx += if k + 1 < n { 2 } else { 1 };
+                                }
+                                for p in v {
+                                    res.children.push((p.pid().unwrap_or(0), vec![]));
+                                    res.popens.push(p);
+                                }
+                                res.held.push(wr);
+                            }
+                            Err(e) => {
+                                res.error = Some(e.to_string());
+                                break;
+                            }
+                        }
                     }
                 }
             }
@@ -598,13 +674,26 @@ pub fn check_concurrent(ctx: &Ctx, case: &ConcCase, rep: &mut CaseReport) -> Cas
             let tid = TIDS[t].load(SeqCst);
             let mine: Vec<&ip::PipeRec> = snap.iter().filter(|p| p.tid == tid).collect();
             let mut idx = 0usize;
-            for (i, o, e) in &case.threads[t] {
-                if let Some(p) = mine.get(idx) {
-                    w.status.insert(p.ino);
+            for wk in &case.threads[t] {
+                match wk {
+                    Work::Spawn(i, o, e) => {
+                        if let Some(p) = mine.get(idx) {
+                            w.status.insert(p.ino);
+                        }
+                        let (o, e) = if *o == SK::Merge && *e == SK::Merge { (SK::Pipe, SK::Merge) } else { (*o, *e) };
+                        let i = if *i == SK::Merge { SK::None } else { *i };
+                        idx += 1 + [i, o, e].iter().filter(|k| **k == SK::Pipe).count();
+                    }
+                    Work::Pipeline(n) => {
+                        let n = (*n).clamp(2, 4) as usize;
+                        for k in 0..n {
+                            if let Some(p) = mine.get(idx) {
+                                w.status.insert(p.ino);
+                            }
+                            idx += if k + 1 < n { 2 } else { 1 };
+                        }
+                    }
                 }
-                let (o, e) = if *o == SK::Merge && *e == SK::Merge { (SK::Pipe, SK::Merge) } else { (*o, *e) };
-                let i = if *i == SK::Merge { SK::None } else { *i };
-                idx += 1 + [i, o, e].iter().filter(|k| **k == SK::Pipe).count();
             }
         }
         for c in hang::my_children() {
@@ -718,19 +807,21 @@ pub fn history_strategy() -> impl Strategy<Value = LeakCase> {
         2 => (2u8..7, any::<bool>(), any::<bool>()).prop_map(|(n, a, b)| Step::PipelinePopen(n, a, b)),
         2 => (2u8..7).prop_map(Step::PipelineCommunicate),
         1 => (2u8..7, any::<bool>()).prop_map(|(n, a)| Step::PipelineStream(n, a)),
+        2 => any::<bool>().prop_map(Step::SpawnToUserPipe),
     ];
     prop::collection::vec(step, 1..13).prop_map(|steps| LeakCase { steps })
 }
 
 pub fn conc_strategy() -> impl Strategy<Value = ConcCase> {
-    (prop::collection::vec(prop::collection::vec((sk(), sk(), sk()), 1..4), 2..4), prop::collection::vec(0u8..3, 0..200)).prop_map(|(threads, schedule)| ConcCase { threads, schedule })
+    let work = prop_oneof![3 => (sk(), sk(), sk()).prop_map(|(a, b, c)| Work::Spawn(a, b, c)), 1 => (2u8..5).prop_map(Work::Pipeline)];
+    (prop::collection::vec(prop::collection::vec(work, 1..4), 2..4), prop::collection::vec(0u8..3, 0..300)).prop_map(|(threads, schedule)| ConcCase { threads, schedule })
 }
 
 fn worker(ctx: &Ctx) {
     quiet_panics();
-    let n = ctx.tier.pick(60, 3000);
+    let n = ctx.tier.pick(150, 3000);
     ctx.explore("real+registry", "c08-history", history_strategy(), n, 200, |c, rep| check_history(ctx, c, rep));
-    let m = ctx.tier.pick(100, 5000);
+    let m = ctx.tier.pick(300, 5000);
     ctx.explore("real+scheduler", "c08-concurrent", conc_strategy(), m, 300, |c, rep| check_concurrent(ctx, c, rep));
 }
 
